@@ -115,9 +115,11 @@ def find_islands(im, bkg, rms,
         if np.any(snr[xmin:xmax, ymin:ymax][own] > seed_clip):
             # obey region constraint
             if region is not None:
-                y, x = np.where(snr[xmin:xmax, ymin:ymax] >= flood_clip)
-                yx = list(zip(y + ymin, x + xmin))
-                ra, dec = wcs.wcs.wcs_pix2world(yx, 1).transpose()
+                # sky positions of this island's own pixels: the wcs wants
+                # (column, row), and numpy indices are 0-based
+                rows, cols = np.where(own)
+                pix = np.column_stack((cols + ymin, rows + xmin))
+                ra, dec = wcs.wcs.wcs_pix2world(pix, 0).transpose()
                 mask = region.sky_within(ra, dec, degin=True)
                 if not np.any(mask):
                     continue
